@@ -12,6 +12,7 @@ statement covers debug and release builds; the capacity `s.r.cap` is an arbitrar
 -/
 import Micromap.Proofs.RefineStep
 import Micromap.Proofs.RefineTie
+import Micromap.Props.SysSpec
 
 namespace Micromap.Props.C01
 open Micromap Micromap.Refine SetAlg
@@ -163,5 +164,49 @@ example : HistOK exEnv
      .remove (.key (1, 99)), .index (.q 1), .iter]
     ⟨Raw.new 2, {}⟩ [] :=
   history_from_new exEnv_lawful 2 {} ⟨rfl, rfl⟩ _
+
+/-! ### the whole system against a readable list-level interpreter
+
+`Spec/ListSys.lean` is a pure interpreter of the WHOLE operation language over association lists
+(no slots, no world, no callbacks): `ListSys.lstep` / `lrun`.  The slot machine that the driver
+executes against the real crate computes exactly this function (`Props/SysSpec.lean`,
+`Proofs/ListSys*.lean`): the bounded-dictionary behaviour of this property, and with it every
+returned value, reference position, iterator output, rendered string, count and panic of every safe
+operation on all four registers, is fixed by a function one can read. -/
+
+section ListLevel
+open Micromap.ListSys
+
+/-- one step of the system = one step of the list-level interpreter (benign world, `==` that does
+    not change between calls; `Op.inSpec`: everything but the two `unsafe fn`s and `inject`;
+    `Op.SideOK`: a `retain` predicate independent of the call counter, clones independent of the
+    fresh-object counter for `clone_to` / `sub` / `serde`). -/
+theorem system_step_refines (E : Env K V Q) (R : Render K V) (hE : E.Pure) {sys : Sys K V Q}
+    {ls : LSys K V} (hb : Benign sys.w) (hs : SysRep sys ls) (op : Op K V Q) (hop : op.inSpec = true)
+    (hside : Op.SideOK E op) :
+    view (step E R sys op).2 = (lstep E R ls op).2 ∧
+      SysRep (step E R sys op).1 (lstep E R ls op).1 ∧ Benign (step E R sys op).1.w :=
+  SysSpec.step_refines E R hE hb hs op hop hside
+
+/-- every history from fresh registers of any capacities: the outcomes and returned values are
+    those the interpreter computes, and the final registers hold the interpreter's lists. -/
+theorem system_history_refines (E : Env K V Q) (R : Render K V) (hE : E.Pure) (capM capS : Nat → Nat)
+    (w0 : World K V Q) (hb : Benign w0) (ops : List (Op K V Q))
+    (hops : ∀ op ∈ ops, op.inSpec = true ∧ Op.SideOK E op) :
+    (run E R (Sys.init capM capS w0) ops).2.map view =
+        (lrun E R (LSys.init capM capS w0.profile) ops).2 ∧
+      SysRep (run E R (Sys.init capM capS w0) ops).1 (lrun E R (LSys.init capM capS w0.profile) ops).1 :=
+  let h := SysSpec.run_refines E R hE capM capS w0 hb ops hops
+  ⟨h.1, h.2.1⟩
+
+/-- only the lists matter: dead slots, event logs, counters do not influence any later result. -/
+theorem system_depends_on_lists_only (E : Env K V Q) (R : Render K V) (hE : E.Pure)
+    {sys₁ sys₂ : Sys K V Q} {ls : LSys K V} (hb₁ : Benign sys₁.w) (hb₂ : Benign sys₂.w)
+    (hs₁ : SysRep sys₁ ls) (hs₂ : SysRep sys₂ ls) (ops : List (Op K V Q))
+    (hops : ∀ op ∈ ops, op.inSpec = true ∧ Op.SideOK E op) :
+    (run E R sys₁ ops).2.map view = (run E R sys₂ ops).2.map view :=
+  (SysSpec.run_deterministic_in_lists E R hE hb₁ hb₂ hs₁ hs₂ ops hops).1
+
+end ListLevel
 
 end Micromap.Props.C01
